@@ -204,6 +204,8 @@ class History:
         names = rng.sample(['bbb_v7_enc.mp4', 'bbb_a1_enc.mp4', 'bbb_v7.mp4'], rng.choice([2, 3]))
         if rng.random() < 0.3:
             names = ['bbb_v7.mp4', 'bbb_v7_enc.mp4'] + ([] if rng.random() < 0.5 else ['bbb_a1_enc.mp4'])
+            if rng.random() < 0.4:
+                names = ['bbb_v7.mp4', 'bbb_v7_01.mp4']         # two clear video files of one track
         two_streams = rng.random() < 0.4
 
         def last_stream(w, k=1):
